@@ -353,6 +353,71 @@ theorem batch_invalid_rejected_partial (mult : Int) (s l : Bytes) (e : Err)
 example : processBlock 1 [109, 32, 118, 61, 116, 10, 120] = .error .nofield :=   -- "m v=t⏎x"
   batch_invalid_rejected_partial 1 _ [120] .nofield (by decide) (by decide)
 
+/-- **a one-line request block stores the point it was printed from**: measurement, tag set
+(in canonical order), every field with the value the parser gives its token (a string field:
+its exact bytes), the timestamp times the precision multiplier — on whichever path. -/
+theorem block_roundtrip (p : SPoint) (h : p.Ok) (hs : LineShape (showSLine p)) (mult : Int) (hm : 1 ≤ mult)
+    (hfit : ∀ t, p.ts = some t → (t : Int) * mult ≤ maxInt64) :
+    processBlock mult (showSLine p) = .ok [storedOf mult p.row] := by
+  have hrow : parseRow (!(showSLine p).contains bBslash) (showSLine p) = .ok p.row := by
+    apply line_roundtrip_strings_any_path p h
+    intro hn c hc e
+    subst e
+    have : (showSLine p).contains bBslash = true := by simp [List.contains_iff_mem, hc]
+    rw [this] at hn; cases hn
+  unfold processBlock
+  rw [unmarshalRows_spec, splitLines_noNL _ hs.1 hs.2.2.2]
+  simp only [List.filterMap_cons, List.filterMap_nil, List.getLast?_singleton]
+  rw [parseLine_of_row _ _ _ hs hrow]
+  simp only [lineRow, lineErr, List.mapM_cons, List.mapM_nil]
+  -- the single row
+  have hname : p.row.name.isEmpty = false := isEmpty_false h.1
+  have hflds : p.row.fields.isEmpty = false := by
+    show (p.fields.map SField.field).isEmpty = false
+    cases hf : p.fields with
+    | nil => exact absurd hf h.2.2.2.2.2.1
+    | cons _ _ => rfl
+  have hcv : checkValid p.row = none := by simp [checkValid, hname, hflds]
+  unfold storeRow
+  rw [hcv]
+  simp only
+  cases hp : p.ts with
+  | none =>
+    have : p.row.ts = noTimestamp := by simp [SPoint.row, tsOf, hp]
+    simp [this, storedOf, bind, Except.bind, pure, Except.pure]
+  | some t =>
+    have hts : p.row.ts = (t : Int) := by simp [SPoint.row, tsOf, hp]
+    have hnt : p.row.ts ≠ noTimestamp := by rw [hts]; unfold noTimestamp; omega
+    have hf := hfit t hp
+    have hle : ¬ p.row.ts > maxInt64 / mult := by
+      rw [hts]
+      have : (t : Int) ≤ maxInt64 / mult := by
+        apply Int.le_ediv_of_mul_le (by omega) hf
+      omega
+    have hw : wrap64 (p.row.ts * mult) = p.row.ts * mult := by
+      rw [hts]; unfold wrap64
+      have : 0 ≤ (t : Int) * mult := Int.mul_nonneg (by omega) (by omega)
+      unfold maxInt64 at hf
+      omega
+    simp [hnt, hle, hw, storedOf, bind, Except.bind, pure, Except.pure]
+
+
+theorem showNat_15 : showNat 15 = [49, 53] := by
+  rw [showNat]; simp only [show ¬ (15 < 10) by decide, dite_false]
+  rw [showNat]; simp only [show (15 / 10 < 10) by decide, dite_true]
+  decide
+
+theorem exampleSPoint_shape : LineShape (showSLine exampleSPoint) := by
+  have : showSLine exampleSPoint = escapeTag [109, 32, 49] ++ bComma :: showTagsTail [⟨[107], [118]⟩] ++
+      bSpace :: (showSFields exampleSPoint.fields ++ bSpace :: [49, 53]) := by
+    simp [showSLine, exampleSPoint, showTs, showNat_15]
+  rw [this]; decide
+
+example : (processBlock 1000 (showSLine exampleSPoint)).toOption = some [storedOf 1000 exampleSPoint.row] := by
+  rw [block_roundtrip exampleSPoint (by decide) exampleSPoint_shape 1000 (by decide)
+    (by intro t ht; simp only [exampleSPoint, Option.some.injEq] at ht; subst ht; decide)]
+  rfl
+
 /-- **T11** a stored timestamp is the written one times the precision multiplier, exactly
 (no wrap-around), for every multiplier of the regenerated precision table. -/
 theorem timestamp_exact (mult : Int) (r : Row) (sr : StoredRow) (hm : 1 ≤ mult) (h0 : 0 ≤ r.ts)
